@@ -266,6 +266,10 @@ pub struct Trace {
     pub probe: Option<MemDev>,
     /// a call returned success although an injected device fault fired during it
     pub swallowed: Option<String>,
+    /// input flag: after the first failing call the caller gives up adding data but still calls the top-level finalize
+    pub finalize_after_error: bool,
+    /// that finalize call reported success
+    pub finalized_after_error: bool,
 }
 impl Trace {
     fn after_ok(&mut self, name: &str) {
@@ -490,6 +494,20 @@ pub fn exec(p: &Program, dev: MemDev, tr: &mut Trace) {
     let marker = dev.handle();
     tr.probe = Some(dev.handle());
     let mut w = call!(tr, "E57Writer::new", E57Writer::new(dev, &p.guid));
+    exec_ops(&mut w, p, tr);
+    if tr.error.is_some() {
+        if tr.finalize_after_error {
+            tr.current = "finalize (after an earlier call failed)".into();
+            if w.finalize().is_ok() {
+                tr.finalized_after_error = true;
+            }
+        }
+        return;
+    }
+    exec_end(&mut w, p, tr, &marker);
+}
+
+fn exec_ops(w: &mut E57Writer<MemDev>, p: &Program, tr: &mut Trace) {
     for op in &p.ops {
         match op {
             Op::Ext { prefix, url } => call!(tr, "register_extension", w.register_extension(Extension::new(prefix, url))),
@@ -513,19 +531,22 @@ pub fn exec(p: &Program, dev: MemDev, tr: &mut Trace) {
                 }
             }
             Op::Image(im) => {
-                exec_image(&mut w, im, tr);
+                exec_image(w, im, tr);
                 if tr.error.is_some() {
                     return;
                 }
             }
             Op::Cloud(c) => {
-                exec_cloud(&mut w, c, tr);
+                exec_cloud(w, c, tr);
                 if tr.error.is_some() {
                     return;
                 }
             }
         }
     }
+}
+
+fn exec_end(w: &mut E57Writer<MemDev>, p: &Program, tr: &mut Trace, marker: &MemDev) {
     match &p.end {
         End::Finalize => {
             marker.mark("finalize");
